@@ -154,6 +154,8 @@ JudgeFull(pre, l, cand) ==
                  m \in {x \in missing : x.t = "PUBCOMP" /\ l.ev.t = "G"}}
              \cup {"C06/pubrec-missing/" \o (IF l.ev.p.mid \in DOMAIN pre.tx THEN "coinciding-" \o pre.tx[l.ev.p.mid].kind ELSE "no-coincidence") :
                  m \in {x \in missing : x.t = "PUBREC" /\ l.ev.t = "G"}}
+             \cup {"C06/own-ack-lost/coinciding-pub2" :
+                 m \in {x \in missing : x.t = "PUBREL" /\ l.ev.t = "G" /\ l.ev.p.t = "PUBREC" /\ l.ev.p.mid \in pre.gwused}}
              \cup {"C16/register-retransmit-rejected" :
                  m \in {x \in missing : x.t = "REGACK" /\ x.rc = 0 /\ [x EXCEPT !.rc = 1] \in extra}}
              \cup {"C33/no-pingreq-within-keepalive" :
@@ -166,6 +168,7 @@ JudgeFull(pre, l, cand) ==
           {x \in missing \cup extra :
               \/ x.t \in {"PUBLISH", "SUBSCRIBE", "REGISTER", "UNSUBSCRIBE", "PUBREL"} /\ l.ev.t = "Adv"
               \/ x.t = "PUBCOMP" /\ l.ev.t = "G"
+              \/ x.t = "PUBREL" /\ l.ev.t = "G" /\ l.ev.p.t = "PUBREC" /\ l.ev.p.mid \in pre.gwused
               \/ x.t = "PUBREC" /\ l.ev.t = "G" /\ x \in missing
               \/ x.t \in {"WILLMSG", "JUNK"} /\ sigOut # {}
               \/ x.t = "REGACK" /\ sigOut # {}
@@ -201,6 +204,11 @@ JudgeFull(pre, l, cand) ==
               x \in {y \in unexp : y.err # "nil" /\ pre.kaGhost /\ isPubQ(y.call) /\ [call |-> y.call, err |-> "nil"] \notin expR}}
           \cup {"C33/api-failed-by-keepalive/" \o ApiOfCall(pre, l, x.call).api :
               x \in {y \in absent : y.err = "nil" /\ pre.kaGhost}}
+          \* C06 (client half): the acknowledgement of a client exchange is not honoured and an exchange of the
+          \* gateway with the same message ID has been open in the meantime
+          \cup {"C06/own-ack-lost/coinciding-" \o pre.tx[l.ev.p.mid].kind :
+              x \in {y \in absent : y.err = "nil" /\ l.ev.t = "G" /\ l.ev.p.mid \in DOMAIN pre.tx
+                                     /\ pre.tx[l.ev.p.mid].call = y.call /\ l.ev.p.mid \in pre.gwused}}
           \cup {"C17/ack-ignored/" \o ApiOfCall(pre, l, x.call).api :
               x \in {y \in absent : y.err = "nil" /\ isPubQ(y.call) /\ ~pre.kaGhost}}
           \cup {"C28/call-overdue/" \o pre.calls[x.call].api :
